@@ -405,3 +405,80 @@ package keeper
 //@ ensures [C15] second_definition_rejected: err == NoErr ==> !defFound(old(raw), name)
 //@ ensures [C15] stored_under_its_name_nothing_else_changes: err == NoErr ==> raw == old(raw)[KDef(name) := enc_ServiceDefinition(mkServiceDefinition(name, description, tags, author, authorDescription, schemas))]
 //@ ensures error_changes_nothing: err != NoErr ==> raw == old(raw)
+
+// ---------------------------------------------------------------- gRPC queries (C17): each returns exactly the stored view
+//@ func (Keeper).GetOwnerServiceBindings
+//@ props C17 C15
+//@ requires owner_address: len(owner) == 20
+//@ loop 0 invariant pos_in_range: 0 <= iterator_pos && iterator_pos <= itCount(iterator_snap, iterator_pfx)
+//@ loop 0 invariant snapshot: iterator_snap == raw && iterator_pfx == POwnerBind(owner, serviceName)
+//@ loop 0 invariant listed_so_far: bindings == ownerBindsIt(iterator_snap, iterator_pfx, iterator_pos)
+//@ ensures [C17,C15] exactly_the_owners_bindings_of_the_service: result == ownerBindsIt(raw, POwnerBind(owner, serviceName), itCount(raw, POwnerBind(owner, serviceName)))
+
+//@ func (Keeper).Definition
+//@ props C17
+//@ ensures [C17] the_stored_definition: err == NoErr ==> defFound(raw, req.ServiceName) && result0.ServiceDefinition == dec_ServiceDefinition(raw[KDef(req.ServiceName)])
+//@ ensures [C17] error_iff_absent: (err == NoErr) <==> defFound(raw, req.ServiceName)
+
+//@ func (Keeper).Binding
+//@ props C17
+//@ ensures [C17] the_stored_binding: err == NoErr ==> bindFound(raw, req.ServiceName, req.Provider) && result0.ServiceBinding == bindOf(raw, req.ServiceName, req.Provider)
+//@ ensures [C17] error_iff_absent: (err == NoErr) <==> bindFound(raw, req.ServiceName, req.Provider)
+
+//@ func (Keeper).Bindings
+//@ props C17 C15
+//@ requires owner_address: len(req.Owner) == 0 || len(req.Owner) == 20
+//@ loop 0 invariant pos_in_range: 0 <= iterator_pos && iterator_pos <= itCount(iterator_snap, iterator_pfx)
+//@ loop 0 invariant snapshot: iterator_snap == raw && iterator_pfx == PBindSvc(req.ServiceName)
+//@ loop 0 invariant listed_so_far: bindings == bindsIt(iterator_snap, iterator_pfx, iterator_pos)
+//@ ensures [C17,C15] exactly_the_bindings_of_the_service_and_owner: err == NoErr && result0.ServiceBindings == (len(req.Owner) == 0
+//@      ? bindsIt(raw, PBindSvc(req.ServiceName), itCount(raw, PBindSvc(req.ServiceName)))
+//@      : ownerBindsIt(raw, POwnerBind(req.Owner, req.ServiceName), itCount(raw, POwnerBind(req.Owner, req.ServiceName))))
+
+//@ func (Keeper).WithdrawAddress
+//@ props C17 C13
+//@ ensures [C17] the_withdrawal_address_or_the_owner: err == NoErr && result0.WithdrawAddress == withdrawAddrOf(raw, req.Owner)
+
+//@ func (Keeper).RequestContext
+//@ props C17
+//@ ensures [C17] the_stored_context_or_zero: err == NoErr && result0.RequestContext == ctxOrZero(raw, req.RequestContextId)
+
+//@ func (Keeper).Request
+//@ props C17
+//@ ensures [C17] the_reconstructed_request_or_zero: err == NoErr ==> len(req.RequestId) == 58 && result0.Request == requestOrZero(raw, req.RequestId)
+//@ ensures [C17] error_iff_bad_length: (err == NoErr) <==> len(req.RequestId) == 58
+
+//@ func (Keeper).Requests
+//@ props C17
+//@ loop 0 invariant pos_in_range: 0 <= iterator_pos && iterator_pos <= itCount(iterator_snap, iterator_pfx)
+//@ loop 0 invariant snapshot: iterator_snap == raw && iterator_pfx == PActBind(req.ServiceName, req.Provider)
+//@ loop 0 invariant listed_so_far: requests == reqsByMarkerIt(iterator_snap, iterator_pfx, iterator_pos)
+//@ ensures [C17] exactly_the_pending_requests_of_the_binding: err == NoErr && result0.Requests == reqsByMarkerIt(raw, PActBind(req.ServiceName, req.Provider), itCount(raw, PActBind(req.ServiceName, req.Provider)))
+
+//@ func (Keeper).RequestsByReqCtx
+//@ props C17
+//@ requires in_range: 0 <= req.BatchCounter && req.BatchCounter <= 18446744073709551615
+//@ loop 0 invariant pos_in_range: 0 <= iterator_pos && iterator_pos <= itCount(iterator_snap, iterator_pfx)
+//@ loop 0 invariant snapshot: iterator_snap == raw && iterator_pfx == PReqByCtx(req.RequestContextId, req.BatchCounter)
+//@ loop 0 invariant listed_so_far: requests == reqsByKeyIt(iterator_snap, iterator_pfx, iterator_pos)
+//@ ensures [C17] exactly_the_requests_of_the_batch: err == NoErr && result0.Requests == reqsByKeyIt(raw, PReqByCtx(req.RequestContextId, req.BatchCounter), itCount(raw, PReqByCtx(req.RequestContextId, req.BatchCounter)))
+
+//@ func (Keeper).Response
+//@ props C17
+//@ ensures [C17] the_stored_response_or_zero: err == NoErr ==> len(req.RequestId) == 58 && result0.Response == (raw[KResp(req.RequestId)] == bnil ? zero_Response : dec_Response(raw[KResp(req.RequestId)]))
+//@ ensures [C17] error_iff_bad_length: (err == NoErr) <==> len(req.RequestId) == 58
+
+//@ func (Keeper).Responses
+//@ props C17
+//@ loop 0 invariant pos_in_range: 0 <= iterator_pos && iterator_pos <= itCount(iterator_snap, iterator_pfx)
+//@ loop 0 invariant snapshot: iterator_snap == raw && iterator_pfx == PRespByCtx(req.RequestContextId, req.BatchCounter)
+//@ loop 0 invariant listed_so_far: responses == respsIt(iterator_snap, iterator_pfx, iterator_pos)
+//@ ensures [C17] exactly_the_responses_of_the_batch: err == NoErr && result0.Responses == respsIt(raw, PRespByCtx(req.RequestContextId, req.BatchCounter), itCount(raw, PRespByCtx(req.RequestContextId, req.BatchCounter)))
+
+//@ func (Keeper).EarnedFees
+//@ props C17 C13
+//@ ensures [C17] the_recorded_earnings: err == NoErr && (forall d Str :: amt(result0.Fees, d) == pfxSum(raw, PEarned(req.Provider), d))
+
+//@ func (Keeper).Params
+//@ props C17
+//@ ensures [C17] the_parameters_in_force: err == NoErr && result0.Params == params
